@@ -30,6 +30,13 @@ CONSTANTS
   TenZero <- NoTz
   SpPairs <- NoSpS
   SpArms <- One0
+  StiffPolys <- P_KP1
+  DampPolys <- P_DP1
+  TenKPolys <- P_TKP1
+  TenDPolys <- P_TDP1
+  SpStiffs <- T000
+  SpRanges <- Rng0
+  SpDamps <- T000
   Level = 3
   Tie = FALSE
   Rand = FALSE
@@ -55,4 +62,5 @@ INVARIANT RestAtReferenceIsForceFree
 INVARIANT SpatialJacIsDerivative
 INVARIANT SpatialMassOK
 INVARIANT ConstraintJacIsDerivative
+INVARIANT DamperIsOdd
 CHECK_DEADLOCK FALSE
